@@ -140,7 +140,7 @@ func (f *freshness) freshCall(c *ssa.Call, idx int, seen map[ssa.Value]bool) (bo
 		return false, "result of " + calleeFullName(c)
 	}
 	// alias-preserving helpers: result is (a re-slice of) the receiver
-	if sf.Name() == "drop" && len(c.Call.Args) == 1 {
+	if f.w.fnIs(sf, "drop") && len(c.Call.Args) == 1 {
 		return f.freshPath(c.Call.Args[0], seen)
 	}
 	switch f.memo[sf] {
@@ -785,7 +785,7 @@ func ruleIdentUse(w *World, r *Report, pkg *ssa.Package, tag string) {
 	const rule = "R-IDENTUSE"
 	nt := newNodeTypes(w, pkg, tag)
 	isIdent := func(fn *ssa.Function) bool {
-		return fnPkg(fn) == pkg.Pkg && (fn.Name() == "ident" || fn.Name() == "pathIdent") && fn.Signature.Recv() != nil
+		return fnPkg(fn) == pkg.Pkg && fn.Signature.Recv() != nil && (w.fnIs(fn, "ident") || w.fnIs(fn, "pathIdent"))
 	}
 	// reachability over resolved in-package callees
 	reachIdent := func(start *ssa.Function) (bool, string) {
@@ -1351,7 +1351,7 @@ func ruleListDiff(w *World, r *Report, pkg *ssa.Package) {
 				}
 				allInstrs(f, func(in ssa.Instruction) {
 					c, ok := in.(*ssa.Call)
-					if !ok || !c.Call.IsInvoke() || c.Call.Method.Name() != "diff" {
+					if !ok || !c.Call.IsInvoke() || !methodIs(c.Call.Method, "diff") {
 						return
 					}
 					for _, b := range f.Blocks {
@@ -1367,6 +1367,98 @@ func ruleListDiff(w *World, r *Report, pkg *ssa.Package) {
 							okRec = true
 						}
 					}
+				})
+			})
+		}
+		// the nested diff is kept: from the recursive call every path to the
+		// next round of the walk or to a return passes a use that moves the
+		// sub-diff into the result (append, assignment, return) — measuring it
+		// and then discarding it replaces the container wholesale
+		for _, wf := range walkSet {
+			if wf == fnDiff {
+				continue
+			}
+			withClosures(wf, func(f *ssa.Function) {
+				k := 0
+				allInstrs(f, func(in ssa.Instruction) {
+					c, ok := in.(*ssa.Call)
+					if !ok || !c.Call.IsInvoke() || !methodIs(c.Call.Method, "diff") {
+						return
+					}
+					k++
+					consumeBlk := map[*ssa.BasicBlock]bool{}
+					consumeEdge := EdgeSet{}
+					sameBlock := false
+					var mark func(v ssa.Value, depth int)
+					mark = func(v ssa.Value, depth int) {
+						if v.Referrers() == nil || depth > 2 {
+							return
+						}
+						for _, ref := range *v.Referrers() {
+							switch u := ref.(type) {
+							case *ssa.Call:
+								if b, isB := u.Call.Value.(*ssa.Builtin); isB && b.Name() == "append" {
+									consumeBlk[u.Block()] = true
+								}
+							case *ssa.Store:
+								if u.Val == v {
+									consumeBlk[u.Block()] = true
+								}
+							case *ssa.Return:
+								consumeBlk[u.Block()] = true
+							case *ssa.Phi:
+								for i, e := range u.Edges {
+									if e == v {
+										pred := u.Block().Preds[i]
+										for j, sc := range pred.Succs {
+											if sc == u.Block() {
+												consumeEdge[Edge{pred, j}] = true
+											}
+										}
+									}
+								}
+							case *ssa.ChangeType:
+								mark(u, depth+1)
+							case *ssa.Slice:
+								mark(u, depth+1)
+							}
+						}
+					}
+					mark(c, 0)
+					if consumeBlk[c.Block()] {
+						sameBlock = true
+					}
+					lost := ""
+					if !sameBlock {
+						seen := map[*ssa.BasicBlock]bool{}
+						var work []*ssa.BasicBlock
+						push := func(from *ssa.BasicBlock) {
+							for j, sc := range from.Succs {
+								if consumeEdge[Edge{from, j}] || consumeBlk[sc] || seen[sc] {
+									continue
+								}
+								seen[sc] = true
+								work = append(work, sc)
+							}
+						}
+						push(c.Block())
+						for len(work) > 0 && lost == "" {
+							b := work[len(work)-1]
+							work = work[:len(work)-1]
+							if b == c.Block() {
+								lost = "the next round of the walk"
+								break
+							}
+							if _, isRet := b.Instrs[len(b.Instrs)-1].(*ssa.Return); isRet {
+								lost = "a return at " + w.Pos(b.Instrs[len(b.Instrs)-1].Pos())
+								break
+							}
+							push(b)
+						}
+					}
+					r.Check(lost == "", rule, fmt.Sprintf("%s:sub-diff-kept#%d", fnName(f), k), w.Pos(c.Pos()),
+						"the diff of same-position containers is moved into the result on every path",
+						"the diff of same-position containers can be computed and then dropped (a path from the recursive call reaches "+lost+" without using it): the container is replaced wholesale instead of being diffed recursively")
 				})
 			})
 		}
@@ -1653,7 +1745,7 @@ func ruleObjRecurse(w *World, r *Report, pkg *ssa.Package, tag string) {
 	lps := loopsOf(fn)
 	var call *ssa.Call
 	allInstrs(fn, func(in ssa.Instruction) {
-		if c, ok := in.(*ssa.Call); ok && c.Call.IsInvoke() && c.Call.Method.Name() == "diff" {
+		if c, ok := in.(*ssa.Call); ok && c.Call.IsInvoke() && methodIs(c.Call.Method, "diff") {
 			call = c
 		}
 	})
@@ -1894,5 +1986,175 @@ func ruleBagCount(w *World, r *Report, pkg *ssa.Package, tag, fRemove, fAdd stri
 	}
 	if n < 2 {
 		r.Bad(rule, tag+":instance-floor", "-", fmt.Sprintf("only %d copy-listing loops found in the multiset diff", n))
+	}
+}
+
+// wholeValue: v (an element put into a hunk list) is the node `other` as a
+// whole — itself, its asserted form, a list literal or nodeList() holding it.
+func wholeValue(w *World, v ssa.Value, others map[ssa.Value]bool, depth int) bool {
+	v = strip(v)
+	if others[v] {
+		return true
+	}
+	if depth > 3 {
+		return false
+	}
+	switch x := v.(type) {
+	case *ssa.Slice:
+		if a, ok := x.X.(*ssa.Alloc); ok {
+			for _, ref := range *a.Referrers() {
+				if ia, ok := ref.(*ssa.IndexAddr); ok {
+					for _, r2 := range *ia.Referrers() {
+						if st, ok := r2.(*ssa.Store); ok && wholeValue(w, st.Val, others, depth+1) {
+							return true
+						}
+					}
+				}
+			}
+		}
+	case *ssa.Call:
+		if sf := staticCallee(x); sf != nil && w.helperIs(sf, "nodeList") && len(x.Call.Args) == 1 {
+			return wholeValue(w, x.Call.Args[0], others, depth+1)
+		}
+	}
+	return false
+}
+
+// ruleWholeContainer: the array diffs (list, set, multiset) replace the whole
+// receiver by the whole argument only where that is the right answer: on the
+// edge where the argument is not an array of the receiver's kind, or under
+// merge strategy (where arrays are replaced wholesale by design). A
+// replacement hunk — built in place or by a helper that is handed the
+// argument — anywhere else restates arrays that should have been diffed
+// element by element (equal arrays produce a no-op hunk).
+func ruleWholeContainer(w *World, r *Report, pkg *ssa.Package, tag, fAdd string) {
+	rule := "R-WHOLEARR"
+	if tag == "lib" {
+		rule += "(lib)"
+	}
+	h := newHunkType(pkg)
+	n := 0
+	for _, t := range []string{"jsonList", "jsonSet", "jsonMultiset"} {
+		fn := w.MethodOpt(pkg, t, "diff")
+		if fn == nil {
+			continue
+		}
+		r.Fn(fnName(fn))
+		other := fn.Params[1]
+		others := map[ssa.Value]bool{other: true}
+		var okEdges []Edge
+		for _, b := range fn.Blocks {
+			for _, in := range b.Instrs {
+				ta, ok := in.(*ssa.TypeAssert)
+				if !ok || !ta.CommaOk || strip(ta.X) != ssa.Value(other) {
+					continue
+				}
+				for _, ref := range *ta.Referrers() {
+					ex, ok := ref.(*ssa.Extract)
+					if !ok {
+						continue
+					}
+					if ex.Index == 0 {
+						others[ex] = true
+					}
+					if ex.Index == 1 {
+						for _, bb := range fn.Blocks {
+							if cond, _, fE, okb := branchEdges(bb); okb && cond == ssa.Value(ex) {
+								okEdges = append(okEdges, fE)
+							}
+						}
+					}
+				}
+			}
+		}
+		// merge-strategy edges
+		for _, p := range fn.Params {
+			if typeName(p.Type()) != "patchStrategy" {
+				continue
+			}
+			for _, b := range fn.Blocks {
+				cond, tE, fE, ok := branchEdges(b)
+				if !ok {
+					continue
+				}
+				bo, ok := cond.(*ssa.BinOp)
+				if !ok || (bo.Op != token.EQL && bo.Op != token.NEQ) || strip(bo.X) != ssa.Value(p) {
+					continue
+				}
+				if s, ok := constString(bo.Y); ok && s == "merge" {
+					if bo.Op == token.EQL {
+						okEdges = append(okEdges, tE)
+					} else {
+						okEdges = append(okEdges, fE)
+					}
+				}
+			}
+		}
+		allowed := func(b *ssa.BasicBlock) bool {
+			for _, e := range okEdges {
+				if edgeDominatesOrSame(e, b) {
+					return true
+				}
+			}
+			return false
+		}
+		k := 0
+		// (1) replacement hunks built in place
+		for _, fs := range h.fieldStores(fn, fAdd) {
+			if fs.in != fn {
+				continue
+			}
+			whole := false
+			for _, el := range appendedElems(fs.st.Val) {
+				if wholeValue(w, el, others, 0) {
+					whole = true
+				}
+			}
+			if !whole {
+				continue
+			}
+			n++
+			k++
+			r.Check(allowed(fs.st.Block()), rule, fmt.Sprintf("%s:whole-replacement#%d", fnName(fn), k), w.Pos(fs.st.Pos()),
+				"the hunk that puts the whole argument into "+fAdd+" is built only where the argument is not an array of this kind, or under merge strategy",
+				"a hunk replaces the receiver by the whole argument although both are arrays of the same kind and the strategy is not merge: equal or nearly equal arrays are restated instead of diffed")
+		}
+		// (2) replacement hunks built by a helper that is handed the argument
+		allInstrs(fn, func(in ssa.Instruction) {
+			c, ok := in.(*ssa.Call)
+			if !ok {
+				return
+			}
+			g := staticCallee(c)
+			if g == nil || g.Blocks == nil || fnPkg(g) != pkg.Pkg || g == fn || len(c.Call.Args) != len(g.Params) {
+				return
+			}
+			for i, a := range c.Call.Args {
+				if !others[strip(a)] {
+					continue
+				}
+				gOthers := map[ssa.Value]bool{g.Params[i]: true}
+				builds := false
+				for _, fs := range h.fieldStores(g, fAdd) {
+					for _, el := range appendedElems(fs.st.Val) {
+						if wholeValue(w, el, gOthers, 0) {
+							// a helper that only does so under merge strategy of its own is not a strict replacement
+							builds = true
+						}
+					}
+				}
+				if !builds {
+					continue
+				}
+				n++
+				k++
+				r.Check(allowed(c.Block()), rule, fmt.Sprintf("%s:whole-replacement#%d→%s", fnName(fn), k, g.Name()), w.Pos(c.Pos()),
+					"the helper that replaces the receiver by the whole argument is called only where the argument is not an array of this kind, or under merge strategy",
+					"the helper "+g.Name()+", which replaces the receiver by the whole argument, is called although both are arrays of the same kind and the strategy is not merge: equal or nearly equal arrays are restated instead of diffed")
+			}
+		})
+	}
+	if n < 3 {
+		r.Bad(rule, tag+":instance-floor", "-", fmt.Sprintf("only %d whole-array replacement sites found in the list/set/multiset diffs", n))
 	}
 }
